@@ -124,15 +124,19 @@ func randCodePointEscape(r *rand.Rand) string {
 	return fmt.Sprintf([]string{`\u{%x}`, `\u{%X}`, `\u{%04x}`, `\u{%06X}`}[r.IntN(4)], cp)
 }
 
+// legacy octal escapes (Annex B, sloppy mode) of one, two and three digits, and the non-octal \8 \9: xjs keeps them as
+// written, so whatever is printed behind them must not extend them
+var strOctalEsc = []string{`\1`, `\7`, `\3`, `\00`, `\03`, `\12`, `\07`, `\37`, `\40`, `\77`, `\000`, `\101`, `\141`, `\377`, `\400`, `\8`, `\9`, `\08`, `\19`}
+
 // RandStrBody returns the body of a quoted string literal that is valid ECMAScript (sloppy mode) inside quote q;
-// q == 0 means it must be valid inside either quote. No legacy octal escapes other than \0 (never followed by a digit).
+// q == 0 means it must be valid inside either quote. Legacy octal escapes are included (every digit sequence behind a
+// backslash is a valid sloppy-mode spelling; the value follows from the text as written).
 func RandStrBody(r *rand.Rand, q byte) string {
 	n := r.IntN(8)
 	if r.IntN(12) == 0 {
 		n = 20 + r.IntN(60)
 	}
 	var sb strings.Builder
-	lastNul := false
 	for i := 0; i < n; i++ {
 		var p string
 		switch x := r.IntN(10); {
@@ -140,6 +144,12 @@ func RandStrBody(r *rand.Rand, q byte) string {
 			p = strPlain[r.IntN(len(strPlain))]
 		case x < 6:
 			p = strSimpleEsc[r.IntN(len(strSimpleEsc))]
+			if r.IntN(5) == 0 {
+				p = strOctalEsc[r.IntN(len(strOctalEsc))]
+				if r.IntN(2) == 0 { // directly followed by an escape that denotes a digit, or by a digit
+					p += []string{`\x31`, `\x37`, `\u0033`, `\u0039`, `\u{30}`, `\u{0038}`, `1`, `7`, `9`}[r.IntN(9)]
+				}
+			}
 		case x < 8:
 			p = randCodePointEscape(r)
 		case x < 9:
@@ -154,10 +164,6 @@ func RandStrBody(r *rand.Rand, q byte) string {
 				p = []string{`\'`, `\"`}[r.IntN(2)]
 			}
 		}
-		if lastNul && p != "" && p[0] >= '0' && p[0] <= '9' {
-			continue // \0 followed by a digit would be a legacy octal escape
-		}
-		lastNul = p == `\0`
 		sb.WriteString(p)
 	}
 	return sb.String()
